@@ -130,6 +130,17 @@ impl Grapheme {
         is_non_ascii_char_escaped: bool,
         is_astral_code_point_converted_to_surrogate: bool,
     ) {
+        if self.has_repetitions() {
+            // Nested repetitions are printed instead of the characters themselves.
+            self.repetitions.iter_mut().for_each(|it| {
+                it.escape_regexp_symbols(
+                    is_non_ascii_char_escaped,
+                    is_astral_code_point_converted_to_surrogate,
+                )
+            });
+            return;
+        }
+
         let characters = self.chars_mut();
 
         #[allow(clippy::needless_range_loop)]
